@@ -35,7 +35,9 @@ CONSTANTS Cls,        \* "TaskPool" | "SimpleTaskPool"
           MaxOps,     \* budget of environment operations (steps are free)
           NH,         \* harness tasks (flush / gather_and_close / until_closed awaiters)
           OpKinds,    \* operation kinds the environment may use
-          ArmKinds    \* user-code point kinds at which operations may be armed
+          ArmKinds,   \* user-code point kinds at which operations may be armed
+          MaxReq,     \* 0 = every template is used at most once (model checking); > 0 = bound on requests when a recorded
+          MaxTasks    \*     schedule is followed (a template may then be requested several times); likewise for pool tasks
 
 Inf == -1
 Dec(v) == IF v = Inf THEN Inf ELSE v - 1
@@ -52,8 +54,8 @@ SortedSeq(S) == IF S = {} THEN <<>>
 RECURSIVE SumNum(_, _)
 SumNum(q, i) == IF i > Len(q) THEN 0 ELSE q[i].num + SumNum(q, i + 1)
 
-NReq   == Len(Tpl)
-MaxT   == SumNum(Tpl, 1)
+NReq   == IF MaxReq > 0 THEN MaxReq ELSE Len(Tpl)
+MaxT   == IF MaxTasks > 0 THEN MaxTasks ELSE SumNum(Tpl, 1)
 PT     == 0 .. (MaxT - 1)                 \* pool task ids (dense, as the pool issues them)
 SP(r)  == 100 + r                         \* spawner (meta task) of request r = 0, 1, ...
 HT(h)  == 200 + h                         \* harness task h = 0, 1, ...
@@ -288,18 +290,18 @@ OpHStart(s, op, where) ==
 
 OpHCancel(s, op, where) ==      \* the user cancels the task that awaits flush() / gather_and_close() / until_closed()
   LET h == HT(op.h)
-      can == op.h < s.nh /\ s.tk[h].st = "pend"
+      can == op.h >= 0 /\ op.h < s.nh /\ s.tk[h].st = "pend"
   IN OpEv(IF can THEN TaskCancel([s EXCEPT !.tk[h].hcanc = TRUE], h) ELSE s, op, where, IF can THEN "ok" ELSE "skip", [h |-> op.h])
 
 OpRelease(s, op, where) ==
   LET t == op.id
-      can == s.tk[t].st = "pend" /\ s.tk[t].wait = "gate" /\ s.tk[t].fst = "pend"
+      can == t \in PT /\ s.tk[t].st = "pend" /\ s.tk[t].wait = "gate" /\ s.tk[t].fst = "pend"
       s1 == IF can THEN FutSet([s EXCEPT !.tk[t].gout = op.out], t, "res") ELSE s
   IN OpEv(s1, op, where, IF can THEN "ok" ELSE "skip", [id |-> t, out |-> op.out])
 
 OpReleaseCb(s, op, where) ==
   LET t == op.id
-      can == s.tk[t].st = "pend" /\ s.tk[t].wait = "cbg" /\ s.tk[t].fst = "pend"
+      can == t \in PT /\ s.tk[t].st = "pend" /\ s.tk[t].wait = "cbg" /\ s.tk[t].fst = "pend"
              /\ s.tk[t].pc = (IF op.which = "ccb" THEN "ccbgate" ELSE "ecbgate")
   IN OpEv(IF can THEN FutSet(s, t, "res") ELSE s, op, where, IF can THEN "ok" ELSE "skip", [id |-> t, which |-> op.which])
 
